@@ -73,6 +73,16 @@ for _an in ARR1D:
     DEFAULTS[_an] = tuple(PT.ARRAYS[_an].flat(_a[0]))   #  where a lifetime defect of the code under test shows)
     del _a
 
+import re as _re
+CONV = {}       # source array type -> [target array types constructible from it (converting constructors)]
+for _an in ARR1D:
+    _doc = getattr(getattr(imath, _an), "__init__").__doc__ or ""
+    for _m in _re.finditer(r"__init__\( \(object\)arg1, \((\w+)\)arg2\) -> None", _doc):
+        _src = _m.group(1)
+        if _src in PT.ARRAYS and _src != _an and PT.ARRAYS[_src].n == PT.ARRAYS[_an].n and not _an.startswith(("Box", "Euler", "M", "Quat")):
+            CONV.setdefault(_src, []).append(_an)
+CONV = {k: sorted(set(v)) for k, v in CONV.items()}
+
 INT_WRAP = {"i8": (8, True), "u8": (8, False), "i16": (16, True), "u16": (16, False), "i32": (32, True), "u32": (32, False),
             "i64": (64, True), "b": (1, False)}
 
@@ -190,7 +200,7 @@ class Violation(Exception):
 # ---------------------------------------------------------------------------------------------------
 # plan generation
 # ---------------------------------------------------------------------------------------------------
-OPS_PLAIN = [(8, "new"), (3, "newval"), (5, "alias"), (10, "get"), (8, "slice"), (8, "mask"), (8, "set_s"), (6, "set_a"),
+OPS_PLAIN = [(8, "new"), (3, "newval"), (5, "alias"), (4, "convert"), (10, "get"), (8, "slice"), (8, "mask"), (8, "set_s"), (6, "set_a"),
              (5, "setm_s"), (5, "setm_a"), (4, "ifelse_s"), (3, "ifelse_a"), (8, "iop"), (5, "ro"), (5, "comp"),
              (4, "elem_w"), (4, "mv"), (3, "mv_w"), (3, "tobytes"), (3, "frombuf")]
 OPS_FAULTS = OPS_PLAIN + [(9, "release"), (3, "gcp"), (6, "bad_get"), (5, "bad_set"), (6, "badbuf"), (3, "wbuf"), (6, "ro_attack")]
@@ -269,7 +279,7 @@ def gen_op_fields(r, o, op, mode, maxn, types):
     elif o == "badbuf":
         op["t"] = r.choice(sorted(BUF_FMT))
         op["n"] = r.range(1, maxn)
-        op["how"] = r.choice(["wrongtype", "extradim", "flat", "inner", "strided", "bytes", "wrongsize", "offset", "empty2d", "imath_other"])
+        op["how"] = r.choice(["wrongtype", "extradim", "flat", "inner", "strided", "bytes", "wrongsize", "offset", "empty2d", "imath_other", "bigendian", "bigendian"])
     elif o == "ro_attack":
         op["how"] = r.choice(["iop_any", "set_s", "set_a", "setm_s", "setm_a", "elem", "comp_set", "mv"])
         op["m"] = [r.below(2) for _ in range(maxn)]
@@ -515,6 +525,40 @@ class Sim(FAM.FamilyMixin):
         nh = Handle(a, "arr", h.tname, h.store, h.idx, h.writable, h.masked)
         nh.ulen, nh.upos = h.ulen, h.upos
         self.add(nh)
+
+    def op_convert(self, op):
+        """T2Array(T1Array): the converting constructors copy element by element into a new, plain, writable array"""
+        h = self.pick(op["h"], lambda x: x.kind == "arr" and x.tname in CONV)
+        if not h:
+            return False
+        tgt = CONV[h.tname][op["v"] % len(CONV[h.tname])]
+        self.ctx("convert-to-" + tgt, h)
+        st, tt = PT.ARRAYS[h.tname], PT.ARRAYS[tgt]
+        vals = h.values()
+        want = []
+        for v in vals:
+            out = []
+            for x in v:
+                if tt.isfloat:
+                    y = wrap(tt.base, float(x))
+                else:
+                    if isinstance(x, float) and x != int(x) and x < 0:
+                        y = int(x)                 # C++ conversion truncates toward zero
+                    else:
+                        y = int(x)
+                    lo, hi = PT.INT_RANGE[tt.base]
+                    if not (lo <= y <= hi):
+                        return False               # out-of-range conversion: implementation-defined, not exercised
+                    y = bool(y) if tt.base == "b" else y
+                out.append(y)
+            want.append(tuple(out))
+        got = self.call(getattr(imath, tgt), h.real)
+        self.expect(got, False, "%s(%s handle)" % (tgt, h.hkind()))
+        if h.masked:
+            self.inc("probe.convert_from_masked_reference")
+        if h.comp is not None:
+            self.inc("probe.convert_from_strided_view")
+        self.add(Handle(got[1], "arr", tgt, self.new_store(tgt, want), range(len(want)), True))
 
     def op_get(self, op):
         h = self.pick(op["h"], lambda x: x.kind == "arr")
@@ -1109,6 +1153,12 @@ class Sim(FAM.FamilyMixin):
             obj = ((ct[fmt] * 0) * n)() if ndim == 2 else None
             if obj is None:
                 return False
+        elif how == "bigendian":
+            # right scalar type, rank and extent, but a foreign byte order ('>f'): must be rejected, not copied raw
+            be = ct[fmt].__ctype_be__ if hasattr(ct[fmt], "__ctype_be__") else None
+            if be is None or isz == 1:
+                return False
+            obj = (be * n)(*[1] * n) if ndim == 1 else ((be * width) * n)()
         elif how == "imath_other":
             cands = [a for a in sorted(BUF_FMT) if BUF_FMT[a][:3] != BUF_FMT[tname][:3]]
             o2 = cands[op["v"] % len(cands)]
